@@ -19,8 +19,10 @@ def valid_cfg(np_, w, d):
 def gen_scenario(rng, np_, w, d, k, frames, noise=(), faults=True, tag="", once=0):
     """One session: `new`, then `frames` successful frames of sticky random inputs, with (if faults)
     missing inputs, invalid handles and overwritten inputs sprinkled in."""
-    lines = ["new players=%d window=%d dist=%d delay=%d" % (np_, w, d, k)]
-    meta = {"np": np_, "w": w, "d": d, "k": k, "noise": list(noise), "tag": tag, "once": once}
+    # ext=1: the game keeps its snapshots itself and saves (None, checksum) - legal use of the cell API
+    ext = 1 if rng.random() < 0.4 else 0
+    lines = ["new players=%d window=%d dist=%d delay=%d%s" % (np_, w, d, k, " ext=1" if ext else "")]
+    meta = {"np": np_, "w": w, "d": d, "k": k, "noise": list(noise), "tag": tag, "once": once, "ext": ext}
     if not valid_cfg(np_, w, d):
         return {"lines": lines, "meta": meta}
     adv = "advance" + "".join((" noise@%d#%d" % (f, once)) if once else (" noise@%d" % f) for f in noise)
